@@ -156,6 +156,37 @@ pub fn std_alphabet(npos: u8, with_admin: bool) -> Vec<Op> {
     a
 }
 
+/// Dust: liquidity of a few units, swaps of a few token units — every amount is dominated by rounding, a one-unit swap moves
+/// the price across whole ranges, positions are emptied and refilled unit by unit.
+pub fn dust_roots() -> Vec<(&'static str, Vec<Op>)> {
+    vec![
+        ("dust-fresh", vec![]),
+        ("dust-funded", vec![Op::Inc { pos: 0, liq: 7, v2: true }, Op::Inc { pos: 1, liq: 3, v2: false }, Op::Inc { pos: 2, liq: 11, v2: false }]),
+        ("dust-mixed", vec![Op::Inc { pos: 0, liq: 1_000, v2: true }, Op::Inc { pos: 1, liq: 1, v2: false }, Op::Inc { pos: 2, liq: 100_000, v2: false }]),
+    ]
+}
+
+pub fn dust_alphabet(npos: u8) -> Vec<Op> {
+    let mut a = vec![];
+    for pos in 0..npos {
+        a.push(Op::Inc { pos, liq: 1, v2: pos % 2 == 0 });
+        a.push(Op::Inc { pos, liq: 5, v2: pos % 2 == 1 });
+        a.push(Op::Dec { pos, part: Part::One, v2: pos % 2 == 0 });
+        a.push(Op::Dec { pos, part: Part::All, v2: pos % 2 == 1 });
+    }
+    for a_to_b in [true, false] {
+        for (exact_in, amount, lim) in [(true, 1u64, Lim::None), (true, 2, Lim::None), (true, 3, Lim::None), (true, 7, Lim::NextTick), (false, 1, Lim::None), (false, 2, Lim::Bound), (true, u64::MAX >> 8, Lim::NextTick)] {
+            a.push(Op::Swap { a_to_b, exact_in, amount, lim, v2: exact_in == a_to_b });
+        }
+    }
+    for pos in 0..npos {
+        a.push(Op::Update { pos });
+        a.push(Op::CollectFees { pos, v2: pos % 2 == 1 });
+    }
+    a.push(Op::CollectProtocol { v2: true });
+    a
+}
+
 /// Swap-only alphabet for the no-extraction clause and the swap-centric checks.
 pub fn swap_alphabet() -> Vec<Op> {
     let mut a = vec![];
